@@ -270,6 +270,16 @@ impl ReadCursor {
                 ) {
                     Ok(_) => {
                         fence(Ordering::SeqCst);
+                        // Another handle of the parent stream may have advanced it
+                        // between the load of raw and the exchange above, so the new
+                        // stream may be registered behind slots that have been written
+                        // again. Writers treat such a stream as full (see reload_tail_*),
+                        // nobody else can use the new reader yet: move it up to a position
+                        // the parent holds now that the stream is registered.
+                        let cur = (*reader.pos).pos_data.load_raw(Ordering::SeqCst);
+                        if cur != raw {
+                            (*new_reader.pos).pos_data.store_raw(cur, Ordering::SeqCst);
+                        }
                         manager.free(current_ptr, 1);
                         return new_reader;
                     }
